@@ -1,6 +1,8 @@
 package main
 
 import (
+	"os/exec"
+	"context"
 	"encoding/json"
 	"flag"
 	"fmt"
@@ -33,6 +35,17 @@ type PropSpec struct {
 	Trusted    []string `json:"trusted"` // assumptions specific to the property
 	NotDecided []string `json:"not_decided"`
 	Bounded    []string `json:"bounded"`
+	StandIns   []StandIn `json:"stand_ins"` // bounded checks of what the contracts assume (labelled bounded, never counted as proved)
+}
+
+// StandIn is a bounded check, run on the real code through `go test -overlay`, of a fact the
+// contracts assume about a function outside the verifier's reach.
+type StandIn struct {
+	Name  string `json:"name"`
+	Dir   string `json:"dir"`   // package directory relative to the repository root
+	File  string `json:"file"`  // harness file under /verif/harness
+	Run   string `json:"run"`   // test name
+	Bound string `json:"bound"` // the stated bound
 }
 
 type oblReport struct {
@@ -360,6 +373,20 @@ func runCheck(prop string, ps *PropSpec, tier, repo string, seed int, verbose bo
 		exit = 1
 	}
 
+	// bounded stand-ins for assumed facts
+	var standInReports []map[string]interface{}
+	for _, si := range ps.StandIns {
+		rep, out, ok := runStandIn(vdir, repo, tier, seed, si)
+		standInReports = append(standInReports, rep)
+		if !ok {
+			path := filepath.Join(replayDir, "standin-"+fileSafe(si.Name)+".txt")
+			_ = os.WriteFile(path, []byte("Bounded stand-in "+si.Name+" of property "+prop+" failed on the real code: a fact the contracts assume does not hold for the input below.\nbound: "+si.Bound+"\n\n"+out), 0o644)
+			fmt.Printf("VIOLATION property=%s replay=%s\n", prop, path)
+			violations++
+			exit = 1
+		}
+	}
+
 	// evidence
 	var trusted []string
 	trusted = append(trusted, "go/packages, go/types, go/ssa (x/tools v0.29.0) and govc's encoding of SSA instructions (DESIGN Appendix B)")
@@ -404,6 +431,7 @@ func runCheck(prop string, ps *PropSpec, tier, repo string, seed int, verbose bo
 			"known_findings_seen":      knownSeen,
 			"not_decided":              ps.NotDecided,
 			"bounded":                  ps.Bounded,
+			"bounded_stand_ins":        standInReports,
 			"samples":                  samples,
 			"contract_files":           p.CS.Files,
 		},
@@ -527,4 +555,35 @@ func lemmaVC(p *Prog, label string) (*FuncVC, error) {
 		return vc, err
 	}
 	return nil, fmt.Errorf("lemma %s not found in the contract files", label)
+}
+
+// runStandIn runs one bounded stand-in with `go test -overlay` on the working tree.
+func runStandIn(vdir, repo, tier string, seed int, si StandIn) (map[string]interface{}, string, bool) {
+	rep := map[string]interface{}{"name": si.Name, "bound": si.Bound, "label": "bounded (not proved)", "harness": filepath.Join("harness", si.File)}
+	tmp, err := os.MkdirTemp("", "govc-standin")
+	if err != nil {
+		rep["error"] = err.Error()
+		return rep, err.Error(), false
+	}
+	defer os.RemoveAll(tmp)
+	ov := filepath.Join(tmp, "overlay.json")
+	target := filepath.Join(repo, si.Dir, "zz_govc_standin_test.go")
+	_ = os.WriteFile(ov, []byte(fmt.Sprintf(`{"Replace": {%q: %q}}`, target, filepath.Join(vdir, "harness", si.File))), 0o644)
+	ctx, cancel := context.WithTimeout(context.Background(), 20*time.Minute)
+	defer cancel()
+	cmd := exec.CommandContext(ctx, "go", "test", "-v", "-overlay", ov, "-vet=off", "-timeout", "15m", "-count=1", "-run", "^"+si.Run+"$", "./"+si.Dir)
+	cmd.Dir = repo
+	cmd.Env = append(os.Environ(), "GOFLAGS=-mod=mod", "GOPROXY=off", "GOSUMDB=off", "GOTOOLCHAIN=local", "VERIF_TIER="+tier, fmt.Sprintf("VERIF_SEED=%d", seed))
+	t0 := time.Now()
+	outb, err := cmd.CombinedOutput()
+	out := string(outb)
+	rep["wall_s"] = time.Since(t0).Seconds()
+	ok := err == nil && strings.Contains(out, "GOVC-STANDIN name=")
+	for _, l := range strings.Split(out, "\n") {
+		if strings.HasPrefix(l, "GOVC-STANDIN name=") {
+			rep["result"] = strings.TrimSpace(l)
+		}
+	}
+	rep["ok"] = ok
+	return rep, out, ok
 }
